@@ -1,10 +1,10 @@
-\* C44 leg A quick: 2 shards, worlds of <= 2 series, values {1,2}, op sum, depth 1 + label_replace
+\* C44 leg A thorough: 2 shards, worlds of <= 2 series, values {1,2}, ops sum/max, depth 2
 SPECIFICATION Spec
 CONSTANTS NShards = 2
           MaxSeries = 2
           Vals = {1, 2}
-          Ops = {"sum"}
+          Ops = {"sum", "max"}
           WithLrep = TRUE
-          Depth2 = FALSE
+          Depth2 = TRUE
 INVARIANT C44_ShardedEqualsUnsharded
 CHECK_DEADLOCK FALSE
